@@ -43,7 +43,7 @@ func allocBound(supplied int) uint64 { return allocSlack + allocPerByte*uint64(s
 // wreq is one unit of work for a worker.
 type wreq struct {
 	Seq        int    `json:"seq"`
-	Entry      string `json:"entry"` // read | sasl-raw | transport | transport-sasl0 | transport-sasl1
+	Entry      string `json:"entry"` // read | sasl-raw | unmarshal | transport | transport-sasl0 | transport-sasl1
 	Key        int16  `json:"key"`
 	Version    int16  `json:"version"`
 	StreamHex  string `json:"stream_hex"`
@@ -137,6 +137,8 @@ func decodeEntry(entry string, key, ver int16, stream []byte, budget time.Durati
 		return decodeRead(key, ver, stream)
 	case "sasl-raw":
 		return decodeSaslRaw(stream)
+	case "unmarshal":
+		return decodeUnmarshal(key, stream)
 	case "transport", "transport-sasl0", "transport-sasl1":
 		return decodeTransport(entry, key, ver, stream, budget)
 	}
